@@ -124,3 +124,47 @@ def text_round_trip(s):
 
 prop("C11", fucs=["liquer.state_types.TextStateType.as_bytes", "liquer.state_types.TextStateType.from_bytes",
                   "liquer.state_types.BytesStateType.as_bytes", "liquer.state_types.BytesStateType.from_bytes"], lemmas=["text_round_trip"])
+
+
+# ------------------------------------------------------------------ the generic (JSON) codec
+classdef("liquer.state_types.JsonStateType", fields={})
+inline("liquer.state_types.JsonStateType.default_extension")
+
+
+@spec(params=dict(obj=Data), returns=Str, uninterpreted=True)
+def json_text(obj):
+    """json.dumps(obj)"""
+    return json_text(obj)
+
+
+@spec(params=dict(s=Str), returns=Data, uninterpreted=True)
+def json_value(s):
+    """json.loads(s)"""
+    return json_value(s)
+
+
+@assumed("json.dumps", params=dict(obj=Data), returns=Str, pure=True, functional="json_text")
+def _(obj):
+    pass
+
+
+@assumed("json.loads", params=dict(s=Str), returns=Data, pure=True, functional="json_value")
+def _(s):
+    pass
+
+
+@contract("liquer.state_types.JsonStateType.as_bytes", params=dict(self=Ref("JsonStateType"), data=Data, extension=Opt(Str)), returns=Tuple(Bytes, Str),
+          opaque={"mimetype_from_extension": Str, "default_mimetype": Str, "encode": Bytes})
+def _(self, data, extension=None):
+    raises(Exception, label="unsupported-extension")
+    ensures(implies(isnone(extension) or unopt(extension) == "json", result[0] == str_encode(json_text(data), "utf-8")),
+            "the-json-format-is-json.dumps-of-the-value,written-as-utf-8")
+
+
+@contract("liquer.state_types.JsonStateType.from_bytes", params=dict(self=Ref("JsonStateType"), b=Bytes, extension=Opt(Str)), returns=Data)
+def _(self, b, extension=None):
+    raises(AssertionError, when=not isnone(extension) and unopt(extension) != "json", label="only-the-json-format-can-be-read-back")
+    ensures(result == json_value(bytes_decode(b, "utf-8")), "read-back-with-json.loads-of-the-utf-8-text")
+
+
+prop("C11", fucs=["liquer.state_types.JsonStateType.as_bytes", "liquer.state_types.JsonStateType.from_bytes"])
